@@ -330,4 +330,256 @@ theorem loop_placed (cmd : Cmd) (outs : List Path) (work : List (Nat × Laser ×
       | error e => exact hacc
     | stack o pad => simpa [loop] using hacc
 
+/-! ## sameness of results: an equivalence, compatible with the list operations of the run -/
+
+theorem GridEq.refl {α} (g : Grid α) : GridEq g g := ⟨rfl, rfl, fun _ _ _ _ => rfl⟩
+
+theorem GridEq.symm {α} {g g' : Grid α} (h : GridEq g g') : GridEq g' g :=
+  ⟨h.1.symm, h.2.1.symm, fun i j hi hj => (h.2.2 i j (h.1 ▸ hi) (h.2.1 ▸ hj)).symm⟩
+
+theorem GridEq.trans {α} {g g' g'' : Grid α} (h : GridEq g g') (h' : GridEq g' g'') : GridEq g g'' :=
+  ⟨h.1.trans h'.1, h.2.1.trans h'.2.1, fun i j hi hj =>
+    (h.2.2 i j hi hj).trans (h'.2.2 i j (h.1 ▸ hi) (h.2.1 ▸ hj))⟩
+
+theorem LaserEq.refl (l : Laser) : LaserEq l l := ⟨rfl, rfl, GridEq.refl _⟩
+
+theorem LaserEq.symm {l l' : Laser} (h : LaserEq l l') : LaserEq l' l :=
+  ⟨h.1.symm, h.2.1.symm, h.2.2.symm⟩
+
+theorem LaserEq.trans {l l' l'' : Laser} (h : LaserEq l l') (h' : LaserEq l' l'') : LaserEq l l'' :=
+  ⟨h.1.trans h'.1, h.2.1.trans h'.2.1, h.2.2.trans h'.2.2⟩
+
+theorem ContentEq.refl (c : Content) : ContentEq c c := by
+  cases c with
+  | npz l => exact LaserEq.refl l
+  | csv g => exact GridEq.refl g
+  | vtk => trivial
+
+theorem ContentEq.symm {c c' : Content} (h : ContentEq c c') : ContentEq c' c := by
+  cases c <;> cases c' <;> first | exact h.elim | skip
+  · exact LaserEq.symm h
+  · exact GridEq.symm h
+  · trivial
+
+theorem ContentEq.trans {c c' c'' : Content} (h : ContentEq c c') (h' : ContentEq c' c'') :
+    ContentEq c c'' := by
+  cases c <;> cases c' <;> first | exact h.elim | skip
+  all_goals cases c'' <;> first | exact h'.elim | skip
+  · exact LaserEq.trans h h'
+  · exact GridEq.trans h h'
+  · trivial
+
+theorem FileEq.refl (f : File) : FileEq f f := ⟨rfl, ContentEq.refl _⟩
+theorem FileEq.symm {f f' : File} (h : FileEq f f') : FileEq f' f := ⟨h.1.symm, h.2.symm⟩
+theorem FileEq.trans {f f' f'' : File} (h : FileEq f f') (h' : FileEq f' f'') : FileEq f f'' :=
+  ⟨h.1.trans h'.1, h.2.trans h'.2⟩
+
+theorem FilesEq.refl (fs : List File) : FilesEq fs fs := by
+  induction fs with
+  | nil => trivial
+  | cons f t ih => exact ⟨FileEq.refl f, ih⟩
+
+theorem FilesEq.symm {fs gs : List File} (h : FilesEq fs gs) : FilesEq gs fs := by
+  induction fs generalizing gs with
+  | nil => cases gs with
+    | nil => trivial
+    | cons g t => exact h.elim
+  | cons f t ih => cases gs with
+    | nil => exact h.elim
+    | cons g t' => exact ⟨h.1.symm, ih h.2⟩
+
+theorem FilesEq.trans {fs gs hs : List File} (h : FilesEq fs gs) (h' : FilesEq gs hs) :
+    FilesEq fs hs := by
+  induction fs generalizing gs hs with
+  | nil => cases gs with
+    | nil => exact h'
+    | cons g t => exact h.elim
+  | cons f t ih => cases gs with
+    | nil => exact h.elim
+    | cons g t' => cases hs with
+      | nil => exact h'.elim
+      | cons x t'' => exact ⟨h.1.trans h'.1, ih h.2 h'.2⟩
+
+theorem FilesEq.append {as as' bs bs' : List File} (h : FilesEq as as') (h' : FilesEq bs bs') :
+    FilesEq (as ++ bs) (as' ++ bs') := by
+  induction as generalizing as' with
+  | nil => cases as' with
+    | nil => exact h'
+    | cons g t => exact h.elim
+  | cons f t ih => cases as' with
+    | nil => exact h.elim
+    | cons g t' => exact ⟨h.1, ih h.2⟩
+
+/-- the relation is not trivial: the same paths in the same order -/
+theorem FilesEq.paths {fs gs : List File} (h : FilesEq fs gs) :
+    fs.map (·.path) = gs.map (·.path) := by
+  induction fs generalizing gs with
+  | nil => cases gs with
+    | nil => rfl
+    | cons g t => exact h.elim
+  | cons f t ih => cases gs with
+    | nil => exact h.elim
+    | cons g t' => simp only [List.map_cons, h.1.1, ih h.2]
+
+theorem FilesEq.map {α} (F G : α → File) (l : List α) (h : ∀ x ∈ l, FileEq (F x) (G x)) :
+    FilesEq (l.map F) (l.map G) := by
+  induction l with
+  | nil => trivial
+  | cons x t ih =>
+    exact ⟨h x (by simp), ih fun y hy => h y (List.mem_cons_of_mem _ hy)⟩
+
+theorem RunEq.refl (r : Result) : RunEq r r := ⟨rfl, FilesEq.refl _⟩
+theorem RunEq.symm {r r' : Result} (h : RunEq r r') : RunEq r' r := ⟨h.1.symm, h.2.symm⟩
+theorem RunEq.trans {r r' r'' : Result} (h : RunEq r r') (h' : RunEq r' r'') : RunEq r r'' :=
+  ⟨h.1.trans h'.1, h.2.trans h'.2⟩
+
+theorem field_congr {l l' : Laser} (h : LaserEq l l') (n : String) : GridEq (l.field n) (l'.field n) :=
+  ⟨h.2.2.1, h.2.2.2.1, fun i j hi hj => congrFun (h.2.2.2.2 i j hi hj) n⟩
+
+/-- the files of two images that are the same are the same -/
+theorem specFiles_congr (format : String) {l l' : Laser} (p : Path) (h : LaserEq l l') :
+    FilesEq (specFiles format l p) (specFiles format l' p) := by
+  unfold specFiles
+  split
+  · rw [← h.1]
+    exact FilesEq.map _ _ _ fun n _ => ⟨rfl, field_congr h n⟩
+  · split
+    · exact ⟨⟨rfl, h⟩, trivial⟩
+    · exact FilesEq.refl _
+
+/-! ## formats and saving -/
+
+theorem lower_valid {f : String} (h : f ∈ validFormats) : lower f = f := by
+  simp only [validFormats, List.mem_cons, List.not_mem_nil, or_false] at h
+  rcases h with rfl | rfl | rfl <;> decide
+
+/-- an unsupported suffix: `save` raises (the `ValueError` of line 278) -/
+theorem save_bad (l : Laser) (p : Path) (h : lower p.suffix ∉ validFormats) :
+    save l p = .error .crash := by
+  simp only [validFormats, List.mem_cons, List.not_mem_nil, or_false, not_or] at h
+  simp [save, h.1, h.2.1, h.2.2]
+  rfl
+
+/-! ## argument checks -/
+
+/-- the element check of `parse` says what `specRun` says: every requested name is an element of
+some input -/
+theorem known_iff (inputs : List Input) (els : List String) :
+    els.all (inputs.flatMap (·.laser.elements)).contains =
+      els.all fun e => inputs.any fun i => i.laser.elements.contains e := by
+  congr 1
+  funext e
+  rw [Bool.eq_iff_iff]
+  simp [List.mem_flatMap]
+
+/-- `parse` without the monad -/
+theorem parse_unfold (a : Args) :
+    parse a =
+      if a.inputs.isEmpty = true then .error .usage
+      else if a.inputs.any (fun i => !i.present) = true then .error .usage
+      else if validFormats.contains a.format = false then .error .usage
+      else
+        match deriveOutputs a.cmd.isStack (a.inputs.map (·.path)) a.format a.output a.isDir with
+        | .error e => .error e
+        | .ok outs =>
+          match a.cmd.requested with
+          | some els =>
+            if els.all (a.inputs.flatMap (·.laser.elements)).contains = false then .error .usage
+            else .ok outs
+          | none => .ok outs := by
+  unfold parse
+  by_cases h1 : a.inputs.isEmpty = true
+  · simp only [h1, if_true]; rfl
+  by_cases h2 : a.inputs.any (fun i => !i.present) = true
+  · simp only [h1, h2, if_true]; rfl
+  by_cases h3 : validFormats.contains a.format = false
+  · simp only [h1, h2, h3, if_true]; rfl
+  simp only [h1, h2, h3]
+  have h3' : validFormats.contains a.format = true := by simpa using h3
+  simp only [Bool.not_true, Bool.false_eq_true, if_false]
+  cases deriveOutputs a.cmd.isStack (a.inputs.map (·.path)) a.format a.output a.isDir with
+  | error e => rfl
+  | ok outs =>
+    cases a.cmd.requested with
+    | none => rfl
+    | some els =>
+      by_cases h4 : els.all (a.inputs.flatMap (·.laser.elements)).contains = false
+      · simp only [h4, if_true]; rfl
+      · have h4' : els.all (a.inputs.flatMap (·.laser.elements)).contains = true := by simpa using h4
+        simp only [h4']; rfl
+
+/-- every derived output carries the format as its suffix (up to case, for a requested file) -/
+theorem specOutputs_suffix (isStack : Bool) (inputs : List Path) (format : String)
+    (output : Option Path) (isDir : Path → Bool) (outs : List Path) (hf : format ∈ validFormats)
+    (h : specOutputs isStack inputs format output isDir = some outs) :
+    ∀ o ∈ outs, lower o.suffix = format := by
+  have hl := lower_valid hf
+  unfold specOutputs at h
+  cases output with
+  | none =>
+    simp only at h
+    split at h
+    · cases h
+    · cases h
+      intro o ho
+      obtain ⟨i, -, rfl⟩ := List.mem_map.mp ho
+      exact hl
+  | some p =>
+    simp only at h
+    split at h
+    · split at h
+      · cases h
+      · cases h
+        intro o ho
+        obtain ⟨i, -, rfl⟩ := List.mem_map.mp ho
+        exact hl
+    · split at h
+      · rename_i hc
+        cases h
+        intro o ho
+        simp only [List.mem_singleton] at ho
+        subst ho
+        exact hc.2
+      · cases h
+
+theorem snd_enum {α} (l : List α) : (enum l).map Prod.snd = l := by
+  simp [enum, List.map_snd_zip]
+
+theorem flatMap_enum {α β} (g : α → List β) (l : List α) :
+    (enum l).flatMap (fun x => g x.2) = l.flatMap g := by
+  rw [← List.flatMap_map Prod.snd g, snd_enum]
+
+theorem mem_enum {α} (l : List α) (x : Nat × α) (h : x ∈ enum l) : x.2 ∈ l :=
+  (List.of_mem_zip h).2
+
+theorem FilesEq.of_eq {as bs : List File} (h : as = bs) : FilesEq as bs := h ▸ FilesEq.refl _
+
+theorem flatMap_congr' {α β} {l : List α} {f g : α → List β} (h : ∀ x ∈ l, f x = g x) :
+    l.flatMap f = l.flatMap g := by
+  induction l with
+  | nil => rfl
+  | cons x t ih =>
+    simp only [List.flatMap_cons, h x (by simp), ih fun y hy => h y (List.mem_cons_of_mem _ hy)]
+
+/-- the specification never describes a failed run that left files behind -/
+theorem specRun_error_or_ok (a : Args) :
+    specRun a = ⟨.error, []⟩ ∨ (specRun a).status = .ok := by
+  unfold specRun
+  simp only
+  split_ifs
+  · exact Or.inl rfl
+  · split
+    · exact Or.inl rfl
+    · split
+      · split
+        · exact Or.inr rfl
+        · exact Or.inl rfl
+      · exact Or.inr rfl
+      · exact Or.inr rfl
+
+theorem FilesEq.nil_right {fs : List File} (h : FilesEq fs []) : fs = [] := by
+  cases fs with
+  | nil => rfl
+  | cons f t => exact h.elim
+
 end Pew.Cli
